@@ -149,11 +149,11 @@ type vfSeqBase struct {
 	mid uint32
 }
 
-func vfChunkJSON(c vfChunk, txBase, rxBase uint32, ident func(sid int, payload []byte, b, e bool) (int, int)) (m map[string]any, problems []string) {
+func vfChunkJSON(c vfChunk, txBase, rxBase uint32, ident func(sid int, payload []byte, b, e bool, tsn uint32, il bool, fsn int) (int, int)) (m map[string]any, problems []string) {
 	return vfChunkJSONb(c, txBase, rxBase, ident, nil)
 }
 
-func vfChunkJSONb(c vfChunk, txBase, rxBase uint32, ident func(sid int, payload []byte, b, e bool) (int, int), seqb func(sid int) vfSeqBase) (m map[string]any, problems []string) {
+func vfChunkJSONb(c vfChunk, txBase, rxBase uint32, ident func(sid int, payload []byte, b, e bool, tsn uint32, il bool, fsn int) (int, int), seqb func(sid int) vfSeqBase) (m map[string]any, problems []string) {
 	sb := func(sid int) vfSeqBase {
 		if seqb == nil {
 			return vfSeqBase{}
@@ -210,7 +210,11 @@ func vfChunkJSONb(c vfChunk, txBase, rxBase uint32, ident func(sid int, payload 
 		}
 		id, idx := 0, 0
 		if ident != nil {
-			id, idx = ident(u16(4), payload, b, e)
+			fsn := 0
+			if c.Typ == 64 && !b {
+				fsn = int(int32(u32(12)))
+			}
+			id, idx = ident(u16(4), payload, b, e, u32(0), c.Typ == 64, fsn)
 		}
 		m["id"], m["fi"] = id, idx
 		if len(payload) == 0 {
